@@ -295,6 +295,7 @@ class World:
             def sleep(s, secs):
                 self.slept.append(secs)
         libgit.time = _T()
+        self._fast_spawn()
         self._real_cmd = libgit.cmd.__wrapped__ if hasattr(
             libgit.cmd, '__wrapped__') else libgit.cmd
         self.cmd_log = None
@@ -334,6 +335,37 @@ class World:
                     rec['after'] = self.refs()
         recording_cmd.__wrapped__ = self._real_cmd
         libgit.cmd = recording_cmd
+
+    def _fast_spawn(self):
+        """simplecmd starts every command with preexec_fn=os.setsid, which
+        forces CPython to fork() the (large) worker process for each of the
+        60-140 commands of a job.  start_new_session=True asks for the same
+        setsid() in the child but lets CPython use vfork(): same child, about
+        twice the throughput.  Off for the credential worlds (C16 exercises
+        the timeout / process-group kill path) and with VERIF_FAST_SPAWN=0."""
+        import bert_e.lib.simplecmd as sc
+        if os.environ.get('VERIF_FAST_SPAWN', '1') != '1' or self.config.cred:
+            if hasattr(sc.subprocess, '_verif_real'):
+                sc.subprocess = sc.subprocess._verif_real
+            return
+        if hasattr(sc.subprocess, '_verif_real'):
+            return
+        real = sc.subprocess
+
+        class FastPopen(real.Popen):
+            def __init__(self_, *a, **kw):
+                if kw.get('preexec_fn') is os.setsid:
+                    kw.pop('preexec_fn')
+                    kw['start_new_session'] = True
+                super().__init__(*a, **kw)
+
+        class Proxy:
+            _verif_real = real
+            Popen = FastPopen
+
+            def __getattr__(self_, k):
+                return getattr(real, k)
+        sc.subprocess = Proxy()
 
     def mutating(self, kind, descr):
         """Called immediately before every remote-mutating operation of a
